@@ -31,6 +31,20 @@ def gen(ctx):
         T.nth_test(tree, q + "pull", 1, {}, "g_gate_over_max", atoms=atoms),
         T.nth_test(tree, q + "pull", 2, {}, "g_gate_no_space", atoms=atoms),
     ]
+    # the two node properties the gate reads
+    sto = T.parse(core.REPO / "alpenhorn/db/storage.py")
+    natoms = {"self.max_total_gb is None": ("max_none", "bool"), "self.get_total_gb()": ("total", "Z"), "self.avail_gb is None": ("avail_none", "bool")}
+    d += [
+        T.nth_test(sto, "StorageNode.check_over_max", 0, {"self_max_total_gb": "Z"}, "g_no_limit", ["max_none", "self_max_total_gb"], atoms=natoms, expect_count=1),
+        T.return_expr(sto, "StorageNode.check_over_max", {"self_max_total_gb": "Z"}, "g_over_max", ["total", "self_max_total_gb"], atoms=natoms),
+        T.nth_test(sto, "StorageNode.under_min", 0, {}, "g_avail_unknown", ["avail_none"], atoms=natoms, expect_count=1),
+        T.return_expr(sto, "StorageNode.under_min", {"self_avail_gb": "Z", "self_min_avail_gb": "Z"}, "g_under_min", ["self_avail_gb", "self_min_avail_gb"], atoms=natoms),
+    ]
+    for fn_, n_ in (("check_over_max", 2), ("under_min", 2)):
+        rets = [(x.lineno, ast.unparse(x)) for x in ast.walk(T.find_func(sto, "StorageNode." + fn_)) if isinstance(x, ast.Return)]
+        rets = [r for _, r in sorted(rets)]
+        if len(rets) != n_ or rets[0] != "return False":
+            raise T.Untranslatable(f"UNTRANSLATABLE: StorageNode.{fn_} no longer answers False first (no limit / space unknown): {rets}")
     cls = T.find_func(tree, "DefaultNodeIO")
     rf = [x for x in cls.body if isinstance(x, ast.Assign) and ast.unparse(x.targets[0]) == "reserve_factor"]
     if len(rf) != 1 or not isinstance(rf[0].value, ast.Constant) or not isinstance(rf[0].value.value, int):
@@ -277,6 +291,92 @@ def direct_calls(ctx, rng, base, n):
     return cases
 
 
+def gate_quantities(ctx, rng, base, n):
+    """real DefaultNodeIO.pull on a real node row whose free space, minimum, stored total and size limit sit on and around the
+    boundaries (all GiB values are exact multiples of 2^-30, i.e. whole bytes)"""
+    from vf.harness import world as w
+    from alpenhorn.io import default as D
+
+    G = float(2 ** 30)
+    cases, keep = [], []
+    for k in range(n):
+        w.fresh_db(host="h1")
+        (base / f"gq{k % 4}").mkdir(parents=True, exist_ok=True)
+        b = base / f"gq{k % 4}"
+        gs, gd = w.mkgroup("gs"), w.mkgroup("gd")
+        src = w.mknode(b, "src", gs, stype="F")
+        dst = w.mknode(b, "dst", gd, stype=rng.choice("AF"))
+        acq = w.mkacq("acq")
+        mx = rng.choice([None, None, 0, -1024, 1024, 2048, 4096])
+        tot_parts = rng.choice([[], [1024], [1023], [1025], [1024, 1024], [2048], [2047], [4096], [4095, 1], [100]])
+        mn = rng.choice([0, 1024, 2048])
+        av = rng.choice([None, 0, 1023, 1024, 1025, 2047, 2048, 2049, 10 ** 6])
+        size = rng.choice([0, 1, 100, 1024])
+        res = rng.choice([0, 0, 10, 200])
+        bav = rng.choice([res + 2 * size, res + 2 * size, max(0, res + 2 * size - 1), res + 2 * size + 1, 10 ** 7])
+        for j, sz in enumerate(tot_parts):
+            f = w.mkfile(acq, f"old{j}", b"")
+            w.ArchiveFile.update(size_b=sz).where(w.ArchiveFile.id == f.id).execute()
+            w.mkcopy(dst, f, "Y", "Y", size_b=sz)
+        # copies that do not count towards the total: suspect, corrupt, removed
+        for j, hs in enumerate(rng.sample(["M", "X", "N"], rng.randint(0, 2))):
+            f = w.mkfile(acq, f"nc{j}", b"")
+            w.ArchiveFile.update(size_b=5000).where(w.ArchiveFile.id == f.id).execute()
+            w.mkcopy(dst, f, hs, "Y", size_b=5000)
+        node = w.StorageNode.get(id=dst.id)
+        node.min_avail_gb = mn / G
+        node.avail_gb = None if av is None else av / G
+        node.max_total_gb = None if mx is None else mx / G
+        node.save()
+        node = w.StorageNode.get(id=dst.id)
+        f = w.mkfile(acq, "new", b"")
+        w.ArchiveFile.update(size_b=size).where(w.ArchiveFile.id == f.id).execute()
+        f = w.ArchiveFile.get(id=f.id)
+        w.mkcopy(src, f, "Y", "Y", size_b=size)
+        req = w.mkreq(f, src, gd)
+        queue = w.StepQueue.make()
+        D._reserved_bytes.clear()
+        io = D.DefaultNodeIO(node, {}, queue)
+        D._reserved_bytes[node.name] = res
+        orig = os.statvfs
+
+        def statvfs(p, _b=bav):
+            if _b is None:
+                raise OSError("scripted: no statvfs")
+            return StatVfs(_b)
+
+        os.statvfs = statvfs
+        try:
+            try:
+                seen_bav = io.bytes_avail()
+            except OSError:
+                seen_bav = "raised"
+            io.pull(req)
+        finally:
+            os.statvfs = orig
+        queued = queue.qsize == 1
+        after = D._reserved_bytes[node.name]
+        D._reserved_bytes.clear()
+        total = sum(tot_parts)
+        ctx.count("gate-quantities")
+        ctx.distinct_add(("gq", mx, total, mn, av, size, res, bav))
+        rp = {"family": "gate-quantities", "max_total_bytes": mx, "total_bytes": total, "min_avail_bytes": mn, "avail_bytes": av, "size": size, "reserved": res, "free_bytes": bav, "queued": queued}
+        if seen_bav == "raised":
+            continue
+        # the property's sentence, on the quantities
+        if queued and av is not None and av < mn:
+            ctx.fail("C14:gate-under-min", f"a transfer was started on a node with {av} bytes free, below its minimum of {mn}", rp)
+        if queued and mx is not None and mx > 0 and total >= mx:
+            ctx.fail("C14:gate-at-limit", f"a transfer was started on a node holding {total} bytes with a size limit of {mx} bytes", rp)
+        if queued and seen_bav is not None and 2 * size > seen_bav - res:
+            ctx.fail("C14:gate-no-room", f"a transfer of {size} bytes was started with {seen_bav} bytes free and {res} reserved", rp)
+        if after != res + (2 * size if queued else 0):
+            ctx.fail("C14:gate-reservation", f"reserved went {res} -> {after} (queued={queued}, size {size})", rp)
+        cases.append(ctup(copt(av, cz, "Z"), cz(mn), cz(total), copt(mx, cz, "Z"), cz(size), copt(seen_bav, cz, "Z"), cz(res), ctup(cbool(queued), cz(after))))
+        keep.append(rp)
+    return cases, keep
+
+
 def explore(ctx):
     base = ctx.tmp()
     nh = 40 if ctx.quick() else 800
@@ -294,6 +394,10 @@ def explore(ctx):
     for i in bad[:3]:
         ctx.broke("correspondence", f"reservation history: model and implementation differ: {logs[i]}")
     explore_concurrent(ctx, 40 if ctx.quick() else 1500)
+    gq, gkeep = gate_quantities(ctx, ctx.rng, base, 250 if ctx.quick() else 5000)
+    bad = core.run_cases(ctx, "gateq", "Corr.C14", "gcase", "gcheck", gq, shard=1000, extra_imports=("Model.Reserve",))
+    for i in bad[:3]:
+        ctx.broke("correspondence", f"pull gate on quantities: model and implementation differ: {gkeep[i]}")
     rc = direct_calls(ctx, ctx.rng, base, 300 if ctx.quick() else 5000)
     bad = core.run_cases(ctx, "reserve", "Corr.C14", "rcase", "rcheck", rc, shard=1000, extra_imports=("Model.Reserve",))
     for i in bad[:3]:
